@@ -1,268 +1,68 @@
-(* (b) continued: every kind of loop iteration that occurs in a bracket-free operator
-   expression -- whitespace, value (with and without the implicit list), prefix (with
-   and without the implicit list), suffix, binary -- unfolded from Model.Parser.step. *)
+(* (b) continued: the loop state of parse() as a spine-machine state, and every kind of
+   loop iteration that occurs in an operator expression as a transition of the machine. *)
 From Coq Require Import List Arith Bool NArith Lia.
 From GV Require Import Base.Result Gen.TokenTypes Gen.Defs Model.Parser Spec.RefTable Spec.Pratt Spec.Chains
-  Proofs.C02.Denote Proofs.C02.Invariant Proofs.C02.Steps Proofs.C02.Struct.
+  Proofs.C02.Denote Proofs.C02.Invariant Proofs.C02.Steps Proofs.C02.Struct Proofs.C02.Unfold.
 Import ListNotations.
 
-Definition adj_ok (ns : list pnode) (ll : option nat) : Prop :=
-  ll = None \/ exists l ln, ll = Some l /\ nth_error ns l = Some ln /\
-                            definition_eqb (n_def ln) D_SideEffect = false.
-
-Lemma adj_simpl ns ll (ps psig : secondary) :
-  adj_ok ns ll ->
-  match ll with
-  | Some li =>
-      match nth_error ns li with
-      | Some n =>
-          if definition_eqb (n_def n) D_SideEffect && negb (opt_nat_eqb ll None) &&
-             match n_parent n with Some _ => true | None => false end &&
-             match n_left n with Some _ => false | None => true end
-          then Ok (n_parent n, ps, psig)
-          else Ok (ll, ps, psig)
-      | None => impl_err
-      end
-  | None => Ok (ll, ps, psig)
-  end = Ok (ll, ps, psig).
-Proof. intros [->|(l & ln & -> & Hln & Hse)]; [reflexivity|]. rewrite Hln, Hse. reflexivity. Qed.
-
-Ltac fields :=
-  cbn [nodes next_parent last_left check_for_list last_token next_last_left group_stack
-       current_group prev_sec prev_sig separated se_prev bind].
-
-Lemma forbidden_ws p c : forbidden p S_Whitespace c = false.
-Proof. destruct p; reflexivity. Qed.
-
-(* ---- whitespace ---- *)
-Lemma step_ws_unfold ntoks i st :
-  current_group st = None -> adj_ok (nodes st) (last_left st) ->
-  step ntoks i TT_Whitespace st =
-    do cfl <- space_list_check st None;
-    Ok (mkState (nodes st) (next_parent st)
-                (match last_left st with
-                 | Some k => Some k
-                 | None => match nodes st with [] => None | _ :: _ => Some (length (nodes st)) end
-                 end)
-                cfl (Some i) None (group_stack st) None S_Whitespace (prev_sig st) true (se_prev st)).
-Proof.
-  intros Hcg Hadj.
-  destruct st as [ns np ll cfl lt nll gs cg ps psig sep sep_prev]. fields. cbn [nodes last_left current_group] in *.
-  subst cg. unfold step. fields. rewrite (adj_simpl ns ll ps psig Hadj). fields.
-  cbn [get_definition]. fields. rewrite forbidden_ws. cbn [negb andb]. fields.
-  destruct (space_list_check _ None) as [c| | |]; cbn [bind]; reflexivity.
-Qed.
-
-(* ---- suffix operator ---- *)
-Lemma step_suffix_unfold ntoks i tok st d :
-  get_definition tok = (d, S_UnarySuffix) ->
-  definition_eqb d D_Drop = false -> definition_eqb d D_Identifier = false ->
-  current_group st = None -> next_last_left st = None -> adj_ok (nodes st) (last_left st) ->
-  forbidden (prev_sec st) S_UnarySuffix (check_for_list st) = false ->
-  separated st && forbidden_separated (prev_sig st) S_UnarySuffix (check_for_list st) = false ->
-  step ntoks i tok st =
-    do r2 <- parse_token (length (nodes st)) d (last_left st) (nodes st) None false;
-    let '(ns2, parent, tl) := r2 in
-    Ok (mkState (ns2 ++ [mkNode d S_UnarySuffix parent tl None (Some i)])
-                (Some (length (nodes st))) (Some (length (nodes st))) false (Some i) None
-                (group_stack st) None S_UnarySuffix S_UnarySuffix false (se_prev st)).
-Proof.
-  intros Hg Hdrop Hid Hcg Hnll Hadj Hforb Hsep.
-  destruct st as [ns np ll cfl lt nll gs cg ps psig sep sep_prev]. fields.
-  cbn [nodes next_parent last_left check_for_list last_token next_last_left group_stack
-       current_group prev_sec prev_sig separated se_prev] in *.
-  subst cg nll. unfold step. fields. rewrite (adj_simpl ns ll ps psig Hadj). fields. rewrite Hg. fields.
-  rewrite Hforb. cbn [negb andb] in *. rewrite Hsep. fields.
-  destruct (parse_token (length ns) d ll ns None false) as [[[ns2 parent] tl]| | |]; cbn [bind]; try reflexivity.
-  fields. rewrite Hdrop, Hid. rewrite app_last_match. reflexivity.
-Qed.
-
-(* ---- prefix operator, no list pending ---- *)
-Lemma step_prefix_unfold ntoks i tok st d :
-  get_definition tok = (d, S_UnaryPrefix) ->
-  definition_eqb d D_Drop = false -> definition_eqb d D_Identifier = false ->
-  current_group st = None -> next_last_left st = None -> check_for_list st = false ->
-  adj_ok (nodes st) (last_left st) ->
-  forbidden (prev_sec st) S_UnaryPrefix false = false ->
-  separated st && forbidden_separated (prev_sig st) S_UnaryPrefix false = false ->
-  step ntoks i tok st =
-    Ok (mkState (nodes st ++ [mkNode d S_UnaryPrefix (next_parent st) None
-                                (if Nat.leb ntoks (i + 1) then None else Some (length (nodes st) + 1)) (Some i)])
-                (Some (length (nodes st))) (Some (length (nodes st))) false (Some i) None
-                (group_stack st) None S_UnaryPrefix S_UnaryPrefix false (se_prev st)).
-Proof.
-  intros Hg Hdrop Hid Hcg Hnll Hcfl Hadj Hforb Hsep.
-  destruct st as [ns np ll cfl lt nll gs cg ps psig sep sep_prev]. fields.
-  cbn [nodes next_parent last_left check_for_list last_token next_last_left group_stack
-       current_group prev_sec prev_sig separated se_prev] in *.
-  subst cg nll cfl. unfold step. fields. rewrite (adj_simpl ns ll ps psig Hadj). fields. rewrite Hg. fields.
-  rewrite Hforb. cbn [negb andb] in *. rewrite Hsep. fields.
-  rewrite Hdrop, Hid. rewrite app_last_match. reflexivity.
-Qed.
-
-(* ---- value with the implicit list pending ---- *)
-Lemma step_value_list_unfold ntoks i tok st d sec :
-  get_definition tok = (d, sec) -> is_atom_sec sec = true -> definition_eqb d D_Drop = false ->
-  current_group st = None -> check_for_list st = true ->
-  adj_ok (nodes st) (last_left st) ->
-  forbidden (prev_sec st) sec true = false ->
-  separated st && forbidden_separated (prev_sig st) sec true = false ->
-  step ntoks i tok st =
-    do ns <- make_list_node (length (nodes st)) (length (nodes st) + 1) st None;
-    do r2 <- parse_token (length (nodes st) + 1) d (Some (length (nodes st))) ns None false;
-    let '(ns2, parent, tl) := r2 in
-    Ok (mkState (ns2 ++ [mkNode (atom_def d parent ns2) sec parent tl None (Some i)])
-                (next_parent st) (Some (length ns)) false (Some i) None
-                (group_stack st) None sec sec false (se_prev st)).
-Proof.
-  intros Hg Hs Hdrop Hcg Hcfl Hadj Hforb Hsep.
-  destruct st as [ns np ll cfl lt nll gs cg ps psig sep sep_prev]. fields.
-  cbn [nodes next_parent last_left check_for_list last_token next_last_left group_stack
-       current_group prev_sec prev_sig separated se_prev] in *.
-  subst cg cfl. unfold step. fields. rewrite (adj_simpl ns ll ps psig Hadj). fields. rewrite Hg. fields.
-  rewrite Hforb.
-  destruct sec; try discriminate; cbn [negb andb] in *; rewrite Hsep; fields;
-  (destruct (make_list_node _ _ _ None) as [nsl| | |]; cbn [bind]; try reflexivity);
-  (destruct (parse_token _ d _ nsl None false) as [[[ns2 parent] tl]| | |]; cbn [bind]; try reflexivity);
-  fields; rewrite Hdrop; reflexivity.
-Qed.
-
-(* ---- prefix operator with the implicit list pending ---- *)
-Lemma step_prefix_list_unfold ntoks i tok st d :
-  get_definition tok = (d, S_UnaryPrefix) ->
-  definition_eqb d D_Drop = false -> definition_eqb d D_Identifier = false ->
-  current_group st = None -> check_for_list st = true ->
-  adj_ok (nodes st) (last_left st) ->
-  forbidden (prev_sec st) S_UnaryPrefix true = false ->
-  separated st && forbidden_separated (prev_sig st) S_UnaryPrefix true = false ->
-  step ntoks i tok st =
-    do ns <- make_list_node (length (nodes st)) (length (nodes st) + 1) st None;
-    Ok (mkState (ns ++ [mkNode d S_UnaryPrefix (Some (length (nodes st))) None
-                          (Some (length (nodes st) + 1 + 1)) (Some i)])
-                (Some (length (nodes st) + 1)) (Some (length ns)) false (Some i) None
-                (group_stack st) None S_UnaryPrefix S_UnaryPrefix false (se_prev st)).
-Proof.
-  intros Hg Hdrop Hid Hcg Hcfl Hadj Hforb Hsep.
-  destruct st as [ns np ll cfl lt nll gs cg ps psig sep sep_prev]. fields.
-  cbn [nodes next_parent last_left check_for_list last_token next_last_left group_stack
-       current_group prev_sec prev_sig separated se_prev] in *.
-  subst cg cfl. unfold step. fields. rewrite (adj_simpl ns ll ps psig Hadj). fields. rewrite Hg. fields.
-  rewrite Hforb. cbn [negb andb] in *. rewrite Hsep. fields.
-  destruct (make_list_node _ _ _ None) as [nsl| | |]; cbn [bind]; try reflexivity.
-  fields. rewrite Hdrop, Hid. reflexivity.
-Qed.
-
-(* ---- finite facts about suffix and prefix operator tokens and the list definition ---- *)
-Definition op_def_ok (d : definition) (rtl : bool) : bool :=
-  negb (definition_eqb d D_SideEffect) &&
-  match priority d, ref_rank d with
-  | Some my, Some p =>
-    negb (walk_stop my 10 rtl) && N.ltb p INF &&
-    forallb (fun d' => implb (frameable d') (cmp_ok d my rtl d')) all_definition
-  | _, _ => false
+(* ---- open brackets: the parser's group stack ---- *)
+Fixpoint group_ids (fs : list frame) : list nat :=
+  match fs with
+  | [] => []
+  | FGroup i _ :: r => i :: group_ids r
+  | _ :: r => group_ids r
   end.
 
-Lemma op_def_facts d rtl : op_def_ok d rtl = true -> exists my p, op_facts d rtl my p.
+Definition cg_of (n : nat) : option nat := match n with O => None | S k => Some k end.
+
+Definition gstack (ids : list nat) : list (nat * bool) := rev (map (fun g => (g, false)) ids).
+
+Definition groups_ok (st : pstate) (fs : list frame) : Prop :=
+  group_stack st = gstack (group_ids fs) /\ current_group st = cg_of (length (group_ids fs)).
+
+Lemma gstack_length ids : length (gstack ids) = length ids.
+Proof. unfold gstack. rewrite rev_length, map_length. reflexivity. Qed.
+
+Lemma first_group_ids fs : first_group fs = hd_error (group_ids fs).
+Proof. induction fs as [|f r IH]; [reflexivity|]. destruct f; simpl; auto. Qed.
+
+Lemma groups_under st fs : groups_ok st fs -> under_group_of st = Ok (first_group fs).
 Proof.
-  unfold op_def_ok. intros H. apply andb_true_iff in H. destruct H as [H1 H2].
-  destruct (priority d) as [my|] eqn:Ep; [|discriminate H2].
-  destruct (ref_rank d) as [p|] eqn:Er; [|discriminate H2].
-  apply andb_true_iff in H2. destruct H2 as [H2 H4]. apply andb_true_iff in H2. destruct H2 as [H2 H3].
-  exists my, p. constructor.
-  - apply negb_true_iff. exact H1.
-  - exact Ep.
-  - exact Er.
-  - apply negb_true_iff. exact H2.
-  - apply N.ltb_lt. exact H3.
-  - rewrite forallb_forall in H4. intros d' Hd'. specialize (H4 d' (all_definitions_in d')).
-    rewrite Hd' in H4. exact H4.
+  intros [Hgs Hcg]. unfold under_group_of. rewrite Hgs, Hcg, first_group_ids.
+  destruct (group_ids fs) as [|g l]; [reflexivity|]. cbn [length cg_of hd_error].
+  unfold gstack. cbn [map rev]. rewrite nth_error_app2 by (rewrite rev_length, map_length; lia).
+  rewrite rev_length, map_length, Nat.sub_diag. reflexivity.
 Qed.
 
-Lemma list_def_ok : op_def_ok D_List false = true /\ frameable D_List = true.
-Proof. vm_compute. split; reflexivity. Qed.
-
-Definition suffix_tok_ok (t : token_type) : bool :=
-  negb (is_suffix_tok t) ||
-  (let '(d, sec) := get_definition t in
-   definition_eqb d (ref_def t) && secondary_eqb sec S_UnarySuffix &&
-   negb (definition_eqb d D_Drop) && negb (definition_eqb d D_Identifier) && op_def_ok d false).
-
-Lemma suffix_toks_ok : forallb suffix_tok_ok all_token_type = true.
-Proof. vm_compute. reflexivity. Qed.
-
-Lemma secondary_eqb_eq a b : secondary_eqb a b = true -> a = b.
-Proof. destruct a; destruct b; intros H; try reflexivity; vm_compute in H; discriminate H. Qed.
-
-Lemma suffix_tok_facts t : is_suffix_tok t = true ->
-  get_definition t = (ref_def t, S_UnarySuffix) /\
-  definition_eqb (ref_def t) D_Drop = false /\ definition_eqb (ref_def t) D_Identifier = false /\
-  exists my p, op_facts (ref_def t) false my p.
+Lemma pop_group_ids d fs t fs' t' : pop d fs t = (fs', t') -> group_ids fs' = group_ids fs.
 Proof.
-  intros Hs. pose proof suffix_toks_ok as F. rewrite forallb_forall in F.
-  specialize (F t (all_tokens_in t)). unfold suffix_tok_ok in F. rewrite Hs in F.
-  change (negb true || ?x) with x in F.
-  destruct (get_definition t) as [d sec] eqn:Eg.
-  apply andb_true_iff in F. destruct F as [F F5].
-  apply andb_true_iff in F. destruct F as [F F4].
-  apply andb_true_iff in F. destruct F as [F F3].
-  apply andb_true_iff in F. destruct F as [F1 F2].
-  apply definition_eqb_eq in F1. subst d. apply secondary_eqb_eq in F2. subst sec.
-  split; [reflexivity|]. split; [apply negb_true_iff; exact F3|]. split; [apply negb_true_iff; exact F4|].
-  apply op_def_facts. exact F5.
+  revert t. induction fs as [|f r IH]; intros t H; cbn [pop] in H.
+  - injection H as <- <-. reflexivity.
+  - destruct (stays_below d f) eqn:E.
+    + injection H as <- <-. reflexivity.
+    + rewrite (IH _ H). destruct f; try reflexivity. discriminate E.
 Qed.
 
-Definition prefix_tok_ok (t : token_type) : bool :=
-  negb (is_prefix_tok t) ||
-  (let '(d, sec) := get_definition t in
-   definition_eqb d (ref_def t) && secondary_eqb sec S_UnaryPrefix &&
-   negb (definition_eqb d D_Drop) && negb (definition_eqb d D_Identifier) && frameable d &&
-   match ref_rank d with Some p => N.ltb p INF | None => false end).
-
-Lemma prefix_toks_ok : forallb prefix_tok_ok all_token_type = true.
-Proof. vm_compute. reflexivity. Qed.
-
-Lemma prefix_tok_facts t : is_prefix_tok t = true ->
-  get_definition t = (ref_def t, S_UnaryPrefix) /\
-  definition_eqb (ref_def t) D_Drop = false /\ definition_eqb (ref_def t) D_Identifier = false /\
-  frameable (ref_def t) = true /\ exists p, ref_rank (ref_def t) = Some p /\ (p < INF)%N.
+Lemma close_group_ids : forall fs t fs' t', close_group fs t = Some (fs', t') ->
+  group_ids fs = nid t' :: group_ids fs'.
 Proof.
-  intros Hs. pose proof prefix_toks_ok as F. rewrite forallb_forall in F.
-  specialize (F t (all_tokens_in t)). unfold prefix_tok_ok in F. rewrite Hs in F.
-  change (negb true || ?x) with x in F.
-  destruct (get_definition t) as [d sec] eqn:Eg.
-  apply andb_true_iff in F. destruct F as [F F6].
-  apply andb_true_iff in F. destruct F as [F F5].
-  apply andb_true_iff in F. destruct F as [F F4].
-  apply andb_true_iff in F. destruct F as [F F3].
-  apply andb_true_iff in F. destruct F as [F1 F2].
-  apply definition_eqb_eq in F1. subst d. apply secondary_eqb_eq in F2. subst sec.
-  split; [reflexivity|]. split; [apply negb_true_iff; exact F3|]. split; [apply negb_true_iff; exact F4|].
-  split; [exact F5|]. destruct (ref_rank (ref_def t)) as [p|]; [|discriminate F6].
-  exists p. split; [reflexivity|apply N.ltb_lt; exact F6].
+  induction fs as [|f r IH]; intros t fs' t' H; [discriminate|].
+  destruct f as [i d k l|i d k|i k]; cbn [close_group group_ids] in *.
+  - eapply IH; eauto.
+  - eapply IH; eauto.
+  - injection H as <- <-. reflexivity.
 Qed.
 
-(* what a frame's definition is not: value-like, a group, a side effect *)
-Definition frame_def_ok2 (d : definition) : bool :=
-  implb (frameable d)
-    (negb (is_value_like d) && negb (definition_eqb d D_Group) && negb (definition_eqb d D_NestedExpression)
-     && negb (definition_eqb d D_SideEffect)).
-
-Lemma frame_defs_ok2 : forallb frame_def_ok2 all_definition = true.
-Proof. vm_compute. reflexivity. Qed.
-
-Lemma frame_def_facts2 d : frameable d = true ->
-  is_value_like d = false /\ definition_eqb d D_Group = false /\
-  definition_eqb d D_NestedExpression = false /\ definition_eqb d D_SideEffect = false.
+Lemma removelast_pair_snoc {A} (l : list A) x : removelast_pair (l ++ [x]) = Some (l, x).
 Proof.
-  intros H. pose proof frame_defs_ok2 as F. rewrite forallb_forall in F. specialize (F d (all_definitions_in d)).
-  unfold frame_def_ok2 in F. rewrite H in F. cbn [implb] in F.
-  apply andb_true_iff in F. destruct F as [F F4]. apply andb_true_iff in F. destruct F as [F F3].
-  apply andb_true_iff in F. destruct F as [F1 F2].
-  repeat split; apply negb_true_iff; assumption.
+  induction l as [|a r IH]; [reflexivity|]. cbn [app removelast_pair]. rewrite IH.
+  destruct r; reflexivity.
 Qed.
 
-Lemma prio10_value_like d : priority d = Some 10%N -> is_value_like d = true.
-Proof. destruct d; intros H; try reflexivity; vm_compute in H; discriminate H. Qed.
+Lemma groups_ok_same st st' fs fs' :
+  group_stack st' = group_stack st -> current_group st' = current_group st ->
+  group_ids fs' = group_ids fs -> groups_ok st fs -> groups_ok st' fs'.
+Proof. intros H1 H2 H3 [G1 G2]. split; [rewrite H1, H3; exact G1|rewrite H2, H3; exact G2]. Qed.
 
 (* ---- the loop state, with the whitespace mode ---- *)
 Definition compl_mode (sp : bool) (st : pstate) : Prop :=
@@ -279,8 +79,7 @@ Record gpend (st : pstate) (fs : list frame) (sp : bool) : Prop := mkGP {
   gp_struct : pstruct (nodes st) fs;
   gp_ll : last_left st = top_id fs;
   gp_np : next_parent st = top_id fs;
-  gp_cg : current_group st = None;
-  gp_gs : group_stack st = [];
+  gp_groups : groups_ok st fs;
   gp_nll : next_last_left st = None;
   gp_mode : pend_mode sp st
 }.
@@ -288,24 +87,36 @@ Record gpend (st : pstate) (fs : list frame) (sp : bool) : Prop := mkGP {
 Record gcompl (st : pstate) (fs : list frame) (t : ntree) (sp : bool) : Prop := mkGC {
   gc_struct : cstruct (nodes st) fs t;
   gc_ll : last_left st = Some (nid t);
-  gc_cg : current_group st = None;
-  gc_gs : group_stack st = [];
+  gc_groups : groups_ok st fs;
   gc_nll : next_last_left st = None;
   gc_mode : compl_mode sp st
 }.
 
 Lemma init_gpend : gpend init_state [] false.
 Proof.
-  constructor; simpl; auto; [exact pstruct_init|].
+  constructor; simpl; auto; [exact pstruct_init|split; reflexivity|].
   split; [reflexivity|]. split; [left; reflexivity|]. split; [reflexivity|left; reflexivity].
+Qed.
+
+(* the node last_left points at after a completed operand *)
+Lemma gcompl_root st fs t sp : gcompl st fs t sp ->
+  exists ln, nth_error (nodes st) (nid t) = Some ln /\ calm_def (n_def ln) = true /\
+             opt_nat_eqb (n_right ln) (Some (length (nodes st))) = false.
+Proof.
+  intros G. destruct (gc_struct _ _ _ _ G) as [[_ D _ O] Cl _ _ _].
+  destruct (closed_operand_root _ _ _ D Cl) as (ln & Hln & Hc). exists ln. split; [exact Hln|]. split; [exact Hc|].
+  destruct t as [i d k|i d k a|i d k a|i d k l r|i k a]; simpl in Cl; try contradiction;
+    simpl in D; destruct D as (n & Hn & A); cbn [nid] in Hln; rewrite Hn in Hln; injection Hln as <-.
+  - destruct A as (_ & _ & _ & _ & _ & -> & _). reflexivity.
+  - destruct A as (_ & _ & _ & _ & -> & _). reflexivity.
+  - destruct A as (_ & _ & _ & _ & -> & _ & A7).
+    apply opt_nat_eqb_some_neq. pose proof (denotes_lt _ _ _ _ A7 (has_id_root a)). lia.
 Qed.
 
 Lemma gcompl_adj st fs t sp : gcompl st fs t sp -> adj_ok (nodes st) (last_left st).
 Proof.
-  intros G. right. rewrite (gc_ll _ _ _ _ G).
-  destruct (closed_operand_root _ _ _ (lk_den _ _ _ (cs_linked _ _ _ (gc_struct _ _ _ _ G)))
-              (cs_closed _ _ _ (gc_struct _ _ _ _ G))) as (ln & Hln & Hse).
-  exists (nid t), ln. auto.
+  intros G. right. rewrite (gc_ll _ _ _ _ G). destruct (gcompl_root _ _ _ _ G) as (ln & Hln & Hc & _).
+  exists (nid t), ln. split; [reflexivity|]. split; [exact Hln|]. apply (calm_facts _ Hc).
 Qed.
 
 Lemma gpend_adj st fs sp : gpend st fs sp -> adj_ok (nodes st) (last_left st).
@@ -313,55 +124,63 @@ Proof.
   intros G. rewrite (gp_ll _ _ _ G). destruct (gp_struct _ _ _ G) as [Sp _ _ _ FO].
   destruct fs as [|f r]; [left; reflexivity|right].
   simpl in Sp. destruct Sp as [S1 _]. destruct (frame_node_walk _ _ _ _ S1) as (nf & Hnf & Hdf & _).
-  destruct (frame_def_facts _ (FO f (or_introl eq_refl))) as (their & q & _ & _ & _ & Hse).
-  exists (frame_id f), nf. rewrite Hdf. auto.
+  exists (frame_id f), nf. split; [reflexivity|]. split; [exact Hnf|]. rewrite Hdf.
+  destruct f as [i d k l|i d k|i k]; [| |reflexivity];
+    destruct (frame_def_facts _ (FO _ (or_introl eq_refl) eq_refl)) as (their & q & _ & _ & _ & Hse & _); exact Hse.
 Qed.
 
 (* forbidden-composition facts for the modes *)
+Definition closes_operand (sec : secondary) : Prop :=
+  is_bin_sec sec = true \/ sec = S_UnarySuffix \/ sec = S_EndGrouping.
+Definition starts_operand (sec : secondary) : Prop :=
+  is_atom_sec sec = true \/ sec = S_UnaryPrefix \/ sec = S_StartGrouping.
+
 Lemma forb_compl_op sp st sec :
-  compl_mode sp st -> (is_bin_sec sec = true \/ sec = S_UnarySuffix) ->
+  compl_mode sp st -> closes_operand sec ->
   forbidden (prev_sec st) sec (check_for_list st) = false /\
   separated st && forbidden_separated (prev_sig st) sec (check_for_list st) = false.
 Proof.
   intros [Hsig M] Hsec. destruct sp.
   - destruct M as (-> & -> & ->).
-    split; [destruct Hsec as [Hs| ->]; [destruct sec; try discriminate; reflexivity|reflexivity]|].
+    split; [destruct Hsec as [Hs|[->| ->]]; [destruct sec; try discriminate; reflexivity|reflexivity|reflexivity]|].
     cbn [andb]. destruct (prev_sig st); try discriminate;
-      (destruct Hsec as [Hs| ->]; [destruct sec; try discriminate; reflexivity|reflexivity]).
+      (destruct Hsec as [Hs|[->| ->]]; [destruct sec; try discriminate; reflexivity|reflexivity|reflexivity]).
   - destruct M as (-> & -> & Hp). split; [|reflexivity].
     destruct (prev_sec st); try discriminate;
-      (destruct Hsec as [Hs| ->]; [destruct sec; try discriminate; reflexivity|reflexivity]).
+      (destruct Hsec as [Hs|[->| ->]]; [destruct sec; try discriminate; reflexivity|reflexivity|reflexivity]).
+Qed.
+
+Lemma forb_pending_prev ps sec : pending_prev ps -> starts_operand sec -> forbidden ps sec false = false.
+Proof.
+  intros Hp Hsec. destruct Hp as [->|[Hb|[->| ->]]].
+  - destruct Hsec as [Hs|[->| ->]]; [destruct sec; try discriminate; reflexivity|reflexivity|reflexivity].
+  - destruct ps; try discriminate;
+      (destruct Hsec as [Hs|[->| ->]]; [destruct sec; try discriminate; reflexivity|reflexivity|reflexivity]).
+  - destruct Hsec as [Hs|[->| ->]]; [destruct sec; try discriminate; reflexivity|reflexivity|reflexivity].
+  - destruct Hsec as [Hs|[->| ->]]; [destruct sec; try discriminate; reflexivity|reflexivity|reflexivity].
 Qed.
 
 Lemma forb_pend_start sp st sec :
-  pend_mode sp st -> (is_atom_sec sec = true \/ sec = S_UnaryPrefix) ->
+  pend_mode sp st -> starts_operand sec ->
   forbidden (prev_sec st) sec false = false /\
   separated st && forbidden_separated (prev_sig st) sec false = false.
 Proof.
   intros (Hcfl & Hsig & M) Hsec. destruct sp.
   - destruct M as (-> & ->).
-    split; [destruct Hsec as [Hs| ->]; [destruct sec; try discriminate; reflexivity|reflexivity]|].
-    cbn [andb]. destruct Hsig as [->|[Hb| ->]].
-    + destruct Hsec as [Hs| ->]; [destruct sec; try discriminate; reflexivity|reflexivity].
-    + destruct (prev_sig st); try discriminate;
-        (destruct Hsec as [Hs| ->]; [destruct sec; try discriminate; reflexivity|reflexivity]).
-    + destruct Hsec as [Hs| ->]; [destruct sec; try discriminate; reflexivity|reflexivity].
-  - destruct M as (-> & Hp). split; [|reflexivity]. destruct Hp as [->|[Hb| ->]].
-    + destruct Hsec as [Hs| ->]; [destruct sec; try discriminate; reflexivity|reflexivity].
-    + destruct (prev_sec st); try discriminate;
-        (destruct Hsec as [Hs| ->]; [destruct sec; try discriminate; reflexivity|reflexivity]).
-    + destruct Hsec as [Hs| ->]; [destruct sec; try discriminate; reflexivity|reflexivity].
+    split; [destruct Hsec as [Hs|[->| ->]]; [destruct sec; try discriminate; reflexivity|reflexivity|reflexivity]|].
+    cbn [andb]. unfold forbidden_separated. rewrite andb_false_r. apply forb_pending_prev; assumption.
+  - destruct M as (-> & Hp). split; [|reflexivity]. apply forb_pending_prev; assumption.
 Qed.
 
 Lemma forb_compl_list st sec :
-  compl_mode true st -> (is_atom_sec sec = true \/ sec = S_UnaryPrefix) ->
+  compl_mode true st -> starts_operand sec ->
   forbidden (prev_sec st) sec true = false /\
   separated st && forbidden_separated (prev_sig st) sec true = false.
 Proof.
   intros [Hsig (Hc & -> & ->)] Hsec.
-  split; [destruct Hsec as [Hs| ->]; [destruct sec; try discriminate; reflexivity|reflexivity]|].
+  split; [destruct Hsec as [Hs|[->| ->]]; [destruct sec; try discriminate; reflexivity|reflexivity|reflexivity]|].
   cbn [andb]. destruct (prev_sig st); try discriminate;
-    (destruct Hsec as [Hs| ->]; [destruct sec; try discriminate; reflexivity|reflexivity]).
+    (destruct Hsec as [Hs|[->| ->]]; [destruct sec; try discriminate; reflexivity|reflexivity|reflexivity]).
 Qed.
 
 (* ---- the transitions ---- *)
@@ -391,19 +210,24 @@ Theorem gstep_ws_compl ntoks i st fs t sp :
   exists st', step ntoks i TT_Whitespace st = Ok st' /\ gcompl st' fs t true /\ nodes st' = nodes st.
 Proof.
   intros G. pose proof (gcompl_adj _ _ _ _ G) as Hadj.
-  destruct G as [CS Hll Hcg Hgs Hnll [Hsig M]].
-  rewrite (step_ws_unfold ntoks i st Hcg Hadj).
-  assert (Hslc : space_list_check st None = Ok true).
+  destruct G as [CS Hll Hgr Hnll [Hsig M]].
+  rewrite (step_ws_unfold ntoks i st _ (groups_under _ _ Hgr) Hadj).
+  assert (Hslc : space_list_check st (first_group fs) = Ok true).
   { unfold space_list_check. rewrite Hll.
     destruct CS as [[Sp D F O] Cl _ _ _].
-    destruct t as [j d k|j d k a|j d k a|j d k l r]; simpl in Cl; try contradiction;
+    destruct t as [j d k|j d k a|j d k a|j d k l r|j k a]; simpl in Cl; try contradiction;
       simpl in D; destruct D as (n & Hn & A); cbn [nid]; rewrite Hn.
     - destruct A as (_ & _ & A3 & _). rewrite (prio10_value_like _ A3). reflexivity.
     - destruct A as (A1 & _). rewrite A1.
-      cbn [secondary_eqb secondary_index N.eqb Pos.eqb]. rewrite orb_true_r. reflexivity. }
+      cbn [secondary_eqb secondary_index N.eqb Pos.eqb]. rewrite orb_true_r. reflexivity.
+    - destruct A as (_ & A2 & _). rewrite A2. cbn [is_value_like definition_eqb definition_index N.eqb Pos.eqb orb].
+      assert (Hne : opt_nat_eqb (Some j) (first_group fs) = false).
+      { destruct (first_group fs) as [g|] eqn:Eg; [|reflexivity]. apply opt_nat_eqb_some_neq.
+        pose proof (frames_have_lt _ _ _ F (first_group_has _ _ Eg)) as R. simpl in R. lia. }
+      rewrite Hne. reflexivity. }
   rewrite Hslc. cbn [bind]. rewrite Hll. eexists. split; [reflexivity|]. split; [|reflexivity].
-  constructor; cbn [nodes last_left current_group group_stack next_last_left];
-    [exact CS|reflexivity|reflexivity|exact Hgs|reflexivity|].
+  constructor; cbn [nodes last_left next_last_left];
+    [exact CS|reflexivity|eapply groups_ok_same; [| | |exact Hgr]; reflexivity|reflexivity|].
   unfold compl_mode. cbn [prev_sig check_for_list separated prev_sec]. auto.
 Qed.
 
@@ -413,15 +237,21 @@ Theorem gstep_ws_pend ntoks i st fs sp :
   exists st', step ntoks i TT_Whitespace st = Ok st' /\ gpend st' fs true /\ nodes st' = nodes st.
 Proof.
   intros G. pose proof (gpend_adj _ _ _ G) as Hadj.
-  destruct G as [PS Hll Hnp Hcg Hgs Hnll (Hcfl & Hsig & M)].
-  rewrite (step_ws_unfold ntoks i st Hcg Hadj).
-  assert (Hslc : space_list_check st None = Ok false).
+  destruct G as [PS Hll Hnp Hgr Hnll (Hcfl & Hsig & M)].
+  rewrite (step_ws_unfold ntoks i st _ (groups_under _ _ Hgr) Hadj).
+  assert (Hslc : space_list_check st (first_group fs) = Ok false).
   { unfold space_list_check. rewrite Hll, Hcfl. destruct PS as [Sp _ _ _ FO].
     destruct fs as [|f r]; [reflexivity|]. cbn [top_id].
     simpl in Sp. destruct Sp as [S1 _].
     destruct (frame_node_walk _ _ _ _ S1) as (nf & Hnf & Hdf & _ & _ & Hsf).
-    destruct (frame_def_facts2 _ (FO f (or_introl eq_refl))) as (V1 & V2 & V3 & V4).
-    rewrite Hnf, Hdf, V1, V2, V3, V4, Hsf. reflexivity. }
+    rewrite Hnf, Hdf, Hsf.
+    destruct f as [j d k l|j d k|j k].
+    - destruct (frame_def_facts2 _ (FO _ (or_introl eq_refl) eq_refl)) as (V1 & V2 & V3 & V4).
+      cbn [frame_def] in V1, V2, V3, V4 |- *. rewrite V1, V2, V3, V4. reflexivity.
+    - destruct (frame_def_facts2 _ (FO _ (or_introl eq_refl) eq_refl)) as (V1 & V2 & V3 & V4).
+      cbn [frame_def] in V1, V2, V3, V4 |- *. rewrite V1, V2, V3, V4. reflexivity.
+    - cbn [frame_def frame_id first_group is_value_like definition_eqb definition_index N.eqb Pos.eqb orb andb].
+      cbn [opt_nat_eqb]. rewrite Nat.eqb_refl. reflexivity. }
   rewrite Hslc. cbn [bind].
   assert (Hl : match last_left st with
                | Some k => Some k
@@ -431,8 +261,8 @@ Proof.
     destruct (nodes st) as [|n0 r0] eqn:En; [reflexivity|].
     exfalso. apply (ps_cover _ _ PS 0). simpl. lia. }
   rewrite Hl. eexists. split; [reflexivity|]. split; [|reflexivity].
-  constructor; cbn [nodes last_left next_parent current_group group_stack next_last_left];
-    [exact PS|reflexivity|exact Hnp|reflexivity|exact Hgs|reflexivity|].
+  constructor; cbn [nodes last_left next_parent next_last_left];
+    [exact PS|reflexivity|exact Hnp|eapply groups_ok_same; [| | |exact Hgr]; reflexivity|reflexivity|].
   unfold pend_mode. cbn [prev_sig check_for_list separated prev_sec]. auto.
 Qed.
 
@@ -444,15 +274,15 @@ Theorem gstep_value ntoks i tok st fs sp :
               length (nodes st') = S (length (nodes st)).
 Proof.
   intros G Hv. pose proof (gpend_adj _ _ _ G) as Hadj.
-  destruct G as [PS Hll Hnp Hcg Hgs Hnll PM].
+  destruct G as [PS Hll Hnp Hgr Hnll PM].
   destruct (value_tok_facts tok Hv) as (sec & Hg & Hs & Hdrop & Hse0 & Hprio & Hnorm & Hident).
   destruct (forb_pend_start sp st sec PM (or_introl Hs)) as [Hforb Hsep].
   destruct PM as (Hcfl & _).
-  rewrite (step_value_unfold ntoks i tok st (ref_def tok) sec Hg Hs Hdrop Hcg Hnll Hcfl Hadj Hforb Hsep).
-  rewrite Hll, (parse_token_pending _ _ _ (ps_spine _ _ PS) (ps_fok _ _ PS) Hprio Hse0). cbn [bind].
+  rewrite (step_value_unfold ntoks i tok st _ (ref_def tok) sec Hg Hs Hdrop (groups_under _ _ Hgr) Hnll Hcfl Hadj Hforb Hsep).
+  rewrite Hll, (parse_token_pending _ _ _ _ (ps_spine _ _ PS) (ps_fok _ _ PS) Hprio Hse0). cbn [bind].
   eexists. split; [reflexivity|]. split; [|cbn [nodes]; rewrite app_length; simpl; lia].
-  constructor; cbn [nodes last_left current_group group_stack next_last_left];
-    [|reflexivity|reflexivity|exact Hgs|reflexivity|].
+  constructor; cbn [nodes last_left next_last_left];
+    [|reflexivity|eapply groups_ok_same; [| | |exact Hgr]; reflexivity|reflexivity|].
   - apply value_on_pending; [exact PS|]. apply atom_node_of_value; assumption.
   - unfold compl_mode. cbn [prev_sig check_for_list separated prev_sec].
     repeat split; destruct sec; try discriminate; reflexivity.
@@ -466,19 +296,44 @@ Theorem gstep_prefix ntoks i tok st fs sp :
               length (nodes st') = S (length (nodes st)).
 Proof.
   intros G Hp Hi. pose proof (gpend_adj _ _ _ G) as Hadj.
-  destruct G as [PS Hll Hnp Hcg Hgs Hnll PM].
+  destruct G as [PS Hll Hnp Hgr Hnll PM].
   destruct (prefix_tok_facts tok Hp) as (Hg & Hdrop & Hid & Hfr & _).
-  destruct (forb_pend_start sp st S_UnaryPrefix PM (or_intror eq_refl)) as [Hforb Hsep].
+  destruct (forb_pend_start sp st S_UnaryPrefix PM (or_intror (or_introl eq_refl))) as [Hforb Hsep].
   destruct PM as (Hcfl & _).
-  rewrite (step_prefix_unfold ntoks i tok st (ref_def tok) Hg Hdrop Hid Hcg Hnll Hcfl Hadj Hforb Hsep).
+  rewrite (step_prefix_unfold ntoks i tok st _ (ref_def tok) Hg Hdrop Hid (groups_under _ _ Hgr) Hnll Hcfl Hadj Hforb Hsep).
   destruct (Nat.leb_spec ntoks (i + 1)) as [Hle|_]; [lia|].
   replace (length (nodes st) + 1) with (S (length (nodes st))) by lia.
   eexists. split; [reflexivity|]. split; [|cbn [nodes]; rewrite app_length; simpl; lia].
-  constructor; cbn [nodes last_left next_parent current_group group_stack next_last_left];
-    [|reflexivity|reflexivity|reflexivity|exact Hgs|reflexivity|].
+  constructor; cbn [nodes last_left next_parent next_last_left];
+    [|reflexivity|reflexivity|eapply groups_ok_same; [| | |exact Hgr]; reflexivity|reflexivity|].
   - apply prefix_on_pending; cbn [n_sec n_def n_parent n_left n_right n_tok]; auto.
   - unfold pend_mode. cbn [prev_sig check_for_list separated prev_sec].
-    split; [reflexivity|]. split; [right; right; reflexivity|]. split; [reflexivity|right; right; reflexivity].
+    split; [reflexivity|]. split; [right; right; left; reflexivity|]. split; [reflexivity|right; right; left; reflexivity].
+Qed.
+
+(* an opening bracket where an operand is expected *)
+Theorem gstep_open ntoks i st fs sp :
+  gpend st fs sp -> i + 1 < ntoks ->
+  exists st', step ntoks i TT_StartGroup st = Ok st' /\
+              gpend st' (FGroup (length (nodes st)) i :: fs) false /\
+              length (nodes st') = S (length (nodes st)).
+Proof.
+  intros G Hi. pose proof (gpend_adj _ _ _ G) as Hadj.
+  destruct G as [PS Hll Hnp Hgr Hnll PM].
+  destruct (forb_pend_start sp st S_StartGrouping PM (or_intror (or_intror eq_refl))) as [Hforb Hsep].
+  destruct PM as (Hcfl & _).
+  rewrite (step_open_unfold ntoks i st _ (groups_under _ _ Hgr) Hnll Hcfl Hadj Hforb Hsep).
+  destruct (Nat.leb_spec ntoks (i + 1)) as [Hle|_]; [lia|].
+  replace (length (nodes st) + 1) with (S (length (nodes st))) by lia.
+  eexists. split; [reflexivity|]. split; [|cbn [nodes]; rewrite app_length; simpl; lia].
+  destruct Hgr as [Hgs Hcg].
+  constructor; cbn [nodes last_left next_parent next_last_left]; [|reflexivity|reflexivity| |reflexivity|].
+  - apply open_on_pending; cbn [n_sec n_def n_parent n_left n_right n_tok]; auto.
+  - split; cbn [group_stack current_group group_ids length cg_of].
+    + rewrite Hgs. unfold gstack. reflexivity.
+    + rewrite Hgs, gstack_length. reflexivity.
+  - unfold pend_mode. cbn [prev_sig check_for_list separated prev_sec].
+    split; [reflexivity|]. split; [right; right; right; reflexivity|]. split; [reflexivity|right; right; right; reflexivity].
 Qed.
 
 (* a binary operator after a completed operand *)
@@ -490,26 +345,25 @@ Theorem gstep_binary ntoks i tok st fs t sp :
     length (nodes st') = S (length (nodes st)).
 Proof.
   intros G Hb Hi. pose proof (gcompl_adj _ _ _ _ G) as Hadj.
-  destruct G as [CS Hll Hcg Hgs Hnll CM].
+  destruct G as [CS Hll Hgr Hnll CM].
   destruct (binary_tok_facts tok Hb) as (sec & my & p & BF).
   destruct (pop (ref_def tok) fs t) as [fs' t'] eqn:Hpop.
   destruct (forb_compl_op sp st sec CM (or_introl (bf_sec _ _ _ _ BF))) as [Hforb Hsep].
-  destruct Hadj as [Hadj|(l & ln & Hl & Hln & Hse)]; [congruence|].
-  rewrite Hll in Hl. injection Hl as <-.
-  rewrite (step_binary_unfold ntoks i tok st (ref_def tok) sec (nid t) ln
+  rewrite (step_binary_unfold ntoks i tok st _ (ref_def tok) sec
              (bf_def _ _ _ _ BF) (bf_sec _ _ _ _ BF) (bf_drop _ _ _ _ BF) (bf_ident _ _ _ _ BF)
-             Hcg Hnll Hll Hln Hse Hforb Hsep).
+             (groups_under _ _ Hgr) Hnll Hadj Hforb Hsep).
   destruct (operator_on_complete _ _ _ _ _ _ _ _ _ CS (binary_op_facts _ _ _ _ BF) Hpop)
     as (ns' & Hpt & Hlen & Hbin & _).
-  rewrite Hpt. cbn [bind].
+  rewrite Hll, Hpt. cbn [bind].
   destruct (Nat.leb_spec ntoks (i + 1)) as [Hle|_]; [lia|].
   replace (length (nodes st) + 1) with (S (length (nodes st))) by lia.
   eexists. exists fs', t'. split; [reflexivity|]. split; [reflexivity|].
   split; [|cbn [nodes]; rewrite app_length, Hlen; simpl; lia].
-  constructor; cbn [nodes last_left next_parent current_group group_stack next_last_left];
-    [|reflexivity|reflexivity|reflexivity|exact Hgs|reflexivity|].
+  constructor; cbn [nodes last_left next_parent next_last_left];
+    [|reflexivity|reflexivity|eapply groups_ok_same; [| | |exact Hgr]; [reflexivity|reflexivity|]|reflexivity|].
   - apply Hbin; cbn [n_parent n_left n_right]; auto; [exact (bf_frame _ _ _ _ BF)|].
     split; [reflexivity|]. left. split; [exact (bf_sec _ _ _ _ BF)|]. exists i. split; reflexivity.
+  - cbn [group_ids]. apply (pop_group_ids _ _ _ _ _ Hpop).
   - unfold pend_mode. cbn [prev_sig check_for_list separated prev_sec]. split; [reflexivity|].
     split; [right; left; exact (bf_sec _ _ _ _ BF)|]. split; [reflexivity|right; left; exact (bf_sec _ _ _ _ BF)].
 Qed.
@@ -523,25 +377,54 @@ Theorem gstep_suffix ntoks i tok st fs t sp :
     length (nodes st') = S (length (nodes st)).
 Proof.
   intros G Hs. pose proof (gcompl_adj _ _ _ _ G) as Hadj.
-  destruct G as [CS Hll Hcg Hgs Hnll CM].
-  destruct (suffix_tok_facts tok Hs) as (Hg & Hdrop & Hid & my & p & OF).
+  destruct G as [CS Hll Hgr Hnll CM].
+  destruct (suffix_tok_facts tok Hs) as (Hg & Hdrop & Hid & Hplain & my & p & OF).
   destruct (pop (ref_def tok) fs t) as [fs' t'] eqn:Hpop.
-  destruct (forb_compl_op sp st S_UnarySuffix CM (or_intror eq_refl)) as [Hforb Hsep].
-  rewrite (step_suffix_unfold ntoks i tok st (ref_def tok) Hg Hdrop Hid Hcg Hnll Hadj Hforb Hsep).
+  destruct (forb_compl_op sp st S_UnarySuffix CM (or_intror (or_introl eq_refl))) as [Hforb Hsep].
+  rewrite (step_suffix_unfold ntoks i tok st _ (ref_def tok) Hg Hdrop Hid (groups_under _ _ Hgr) Hnll Hadj Hforb Hsep).
   destruct (operator_on_complete _ _ _ _ _ _ _ _ _ CS OF Hpop) as (ns' & Hpt & Hlen & _ & Hsuf).
   rewrite Hll, Hpt. cbn [bind].
   eexists. exists fs', t'. split; [reflexivity|]. split; [reflexivity|].
   split; [|cbn [nodes]; rewrite app_length, Hlen; simpl; lia].
-  constructor; cbn [nodes last_left current_group group_stack next_last_left];
-    [|reflexivity|reflexivity|exact Hgs|reflexivity|].
-  - apply Hsuf; reflexivity.
+  constructor; cbn [nodes last_left next_last_left];
+    [|reflexivity|eapply groups_ok_same; [| | |exact Hgr]; [reflexivity|reflexivity|]|reflexivity|].
+  - apply Hsuf; auto.
+  - apply (pop_group_ids _ _ _ _ _ Hpop).
+  - unfold compl_mode. cbn [prev_sig check_for_list separated prev_sec]. repeat split.
+Qed.
+
+(* a closing bracket after a completed operand *)
+Theorem gstep_close ntoks i st fs t sp fs' t' :
+  gcompl st fs t sp -> close_group fs t = Some (fs', t') ->
+  exists st', step ntoks i TT_EndGroup st = Ok st' /\ gcompl st' fs' t' false /\ nodes st' = nodes st.
+Proof.
+  intros G Hcl. pose proof (gcompl_adj _ _ _ _ G) as Hadj.
+  destruct (gcompl_root _ _ _ _ G) as (ln & Hln & Hcalm & Hright).
+  destruct G as [CS Hll Hgr Hnll CM].
+  destruct (forb_compl_op sp st S_EndGrouping CM (or_intror (or_intror eq_refl))) as [Hforb Hsep].
+  pose proof (close_on_complete _ _ _ _ _ CS Hcl) as CS'.
+  pose proof (close_group_ids _ _ _ _ Hcl) as Hids.
+  destruct (close_group_shape _ _ _ _ Hcl) as (g & k & a & -> & Hfg). cbn [nid] in Hids.
+  destruct Hgr as [Hgs Hcg].
+  assert (Hrl : removelast_pair (group_stack st) = Some (gstack (group_ids fs'), (g, false))).
+  { rewrite Hgs, Hids. unfold gstack. cbn [map rev]. apply removelast_pair_snoc. }
+  destruct (lk_den _ _ _ (cs_linked _ _ _ CS')) as (sgn & Hsgn & _ & Hsd & _).
+  rewrite (step_close_unfold ntoks i st _ _ g false sgn (nid t) ln (groups_under _ _ (conj Hgs Hcg)) Hadj Hforb Hsep
+             Hrl Hsgn Hsd Hll Hln Hcalm Hright).
+  eexists. split; [reflexivity|]. split; [|reflexivity].
+  constructor; cbn [nodes last_left next_last_left]; [exact CS'|reflexivity| |reflexivity|].
+  - split; cbn [group_stack current_group]; [reflexivity|].
+    pose proof (gstack_length (group_ids fs')) as Hl.
+    destruct (gstack (group_ids fs')) as [|x r] eqn:E.
+    + simpl in Hl. rewrite <- Hl. reflexivity.
+    + rewrite <- Hl. cbn [length cg_of]. f_equal. lia.
   - unfold compl_mode. cbn [prev_sig check_for_list separated prev_sec]. repeat split.
 Qed.
 
 (* the synthesised list node *)
 Lemma make_list_node_complete st fs t fs' t' :
   cstruct (nodes st) fs t -> last_left st = Some (nid t) -> pop D_List fs t = (fs', t') ->
-  exists nsl, make_list_node (length (nodes st)) (length (nodes st) + 1) st None = Ok nsl /\
+  exists nsl, make_list_node (length (nodes st)) (length (nodes st) + 1) st (first_group fs) = Ok nsl /\
               length nsl = S (length (nodes st)) /\
               pstruct nsl (FBin (length (nodes st)) D_List None t' :: fs').
 Proof.
@@ -564,23 +447,24 @@ Theorem gstep_value_list ntoks i tok st fs t :
     length (nodes st') = S (S (length (nodes st))).
 Proof.
   intros G Hv. pose proof (gcompl_adj _ _ _ _ G) as Hadj.
-  destruct G as [CS Hll Hcg Hgs Hnll CM].
+  destruct G as [CS Hll Hgr Hnll CM].
   destruct (value_tok_facts tok Hv) as (sec & Hg & Hs & Hdrop & Hse0 & Hprio & Hnorm & Hident).
   destruct (pop D_List fs t) as [fs' t'] eqn:Hpop.
   destruct (forb_compl_list st sec CM (or_introl Hs)) as [Hforb Hsep].
   destruct CM as [_ (Hcfl & _)].
-  rewrite (step_value_list_unfold ntoks i tok st (ref_def tok) sec Hg Hs Hdrop Hcg Hcfl Hadj Hforb Hsep).
+  rewrite (step_value_list_unfold ntoks i tok st _ (ref_def tok) sec Hg Hs Hdrop (groups_under _ _ Hgr) Hcfl Hadj Hforb Hsep).
   destruct (make_list_node_complete st fs t fs' t' CS Hll Hpop) as (nsl & Hml & Hlen & PS).
   rewrite Hml. cbn [bind].
   replace (length (nodes st) + 1) with (length nsl) by lia.
   change (Some (length (nodes st))) with (top_id (FBin (length (nodes st)) D_List None t' :: fs')).
-  rewrite (parse_token_pending _ _ _ (ps_spine _ _ PS) (ps_fok _ _ PS) Hprio Hse0). cbn [bind].
+  rewrite (parse_token_pending _ _ _ _ (ps_spine _ _ PS) (ps_fok _ _ PS) Hprio Hse0). cbn [bind].
   eexists. exists fs', t'. split; [reflexivity|]. split; [reflexivity|].
   split; [|cbn [nodes]; rewrite app_length, Hlen; simpl; lia].
   rewrite <- Hlen.
-  constructor; cbn [nodes last_left current_group group_stack next_last_left];
-    [|reflexivity|reflexivity|exact Hgs|reflexivity|].
+  constructor; cbn [nodes last_left next_last_left];
+    [|reflexivity|eapply groups_ok_same; [| | |exact Hgr]; [reflexivity|reflexivity|]|reflexivity|].
   - apply value_on_pending; [exact PS|]. apply atom_node_of_value; assumption.
+  - cbn [group_ids]. apply (pop_group_ids _ _ _ _ _ Hpop).
   - unfold compl_mode. cbn [prev_sig check_for_list separated prev_sec].
     repeat split; destruct sec; try discriminate; reflexivity.
 Qed.
@@ -594,22 +478,54 @@ Theorem gstep_prefix_list ntoks i tok st fs t :
     length (nodes st') = S (S (length (nodes st))).
 Proof.
   intros G Hp. pose proof (gcompl_adj _ _ _ _ G) as Hadj.
-  destruct G as [CS Hll Hcg Hgs Hnll CM].
+  destruct G as [CS Hll Hgr Hnll CM].
   destruct (prefix_tok_facts tok Hp) as (Hg & Hdrop & Hid & Hfr & _).
   destruct (pop D_List fs t) as [fs' t'] eqn:Hpop.
-  destruct (forb_compl_list st S_UnaryPrefix CM (or_intror eq_refl)) as [Hforb Hsep].
+  destruct (forb_compl_list st S_UnaryPrefix CM (or_intror (or_introl eq_refl))) as [Hforb Hsep].
   destruct CM as [_ (Hcfl & _)].
-  rewrite (step_prefix_list_unfold ntoks i tok st (ref_def tok) Hg Hdrop Hid Hcg Hcfl Hadj Hforb Hsep).
+  rewrite (step_prefix_list_unfold ntoks i tok st _ (ref_def tok) Hg Hdrop Hid (groups_under _ _ Hgr) Hcfl Hadj Hforb Hsep).
   destruct (make_list_node_complete st fs t fs' t' CS Hll Hpop) as (nsl & Hml & Hlen & PS).
   rewrite Hml. cbn [bind].
   eexists. exists fs', t'. split; [reflexivity|]. split; [reflexivity|].
   split; [|cbn [nodes]; rewrite app_length, Hlen; simpl; lia].
   rewrite <- Hlen.
-  constructor; cbn [nodes last_left next_parent current_group group_stack next_last_left];
-    [| |cbn [top_id frame_id]; f_equal; lia|reflexivity|exact Hgs|reflexivity|].
+  constructor; cbn [nodes last_left next_parent next_last_left];
+    [| |cbn [top_id frame_id]; f_equal; lia|eapply groups_ok_same; [| | |exact Hgr]; [reflexivity|reflexivity|]|reflexivity|].
   - apply prefix_on_pending; cbn [n_sec n_def n_parent n_left n_right n_tok top_id frame_id]; auto.
     f_equal. lia.
   - reflexivity.
+  - cbn [group_ids]. apply (pop_group_ids _ _ _ _ _ Hpop).
   - unfold pend_mode. cbn [prev_sig check_for_list separated prev_sec].
-    split; [reflexivity|]. split; [right; right; reflexivity|]. split; [reflexivity|right; right; reflexivity].
+    split; [reflexivity|]. split; [right; right; left; reflexivity|]. split; [reflexivity|right; right; left; reflexivity].
+Qed.
+
+(* an opening bracket after whitespace after a completed operand: list node, then the bracket *)
+Theorem gstep_open_list ntoks i st fs t :
+  gcompl st fs t true ->
+  exists st' fs' t',
+    pop D_List fs t = (fs', t') /\ step ntoks i TT_StartGroup st = Ok st' /\
+    gpend st' (FGroup (S (length (nodes st))) i :: FBin (length (nodes st)) D_List None t' :: fs') false /\
+    length (nodes st') = S (S (length (nodes st))).
+Proof.
+  intros G. pose proof (gcompl_adj _ _ _ _ G) as Hadj.
+  destruct G as [CS Hll Hgr Hnll CM].
+  destruct (pop D_List fs t) as [fs' t'] eqn:Hpop.
+  destruct (forb_compl_list st S_StartGrouping CM (or_intror (or_intror eq_refl))) as [Hforb Hsep].
+  destruct CM as [_ (Hcfl & _)].
+  rewrite (step_open_list_unfold ntoks i st _ (groups_under _ _ Hgr) Hcfl Hadj Hforb Hsep).
+  destruct (make_list_node_complete st fs t fs' t' CS Hll Hpop) as (nsl & Hml & Hlen & PS).
+  rewrite Hml. cbn [bind].
+  eexists. exists fs', t'. split; [reflexivity|]. split; [reflexivity|].
+  split; [|cbn [nodes]; rewrite app_length, Hlen; simpl; lia].
+  replace (length (nodes st) + 1) with (length nsl) by lia.
+  destruct Hgr as [Hgs Hcg].
+  constructor; cbn [nodes last_left next_parent next_last_left];
+    [|cbn [top_id frame_id]; f_equal; lia|cbn [top_id frame_id]; f_equal; lia| |reflexivity|].
+  - rewrite <- Hlen. apply open_on_pending; cbn [n_sec n_def n_parent n_left n_right n_tok top_id frame_id]; auto;
+      f_equal; lia.
+  - split; cbn [group_stack current_group group_ids length cg_of]; rewrite (pop_group_ids _ _ _ _ _ Hpop).
+    + rewrite Hgs, Hlen. unfold gstack. reflexivity.
+    + rewrite Hgs, gstack_length. reflexivity.
+  - unfold pend_mode. cbn [prev_sig check_for_list separated prev_sec].
+    split; [reflexivity|]. split; [right; right; right; reflexivity|]. split; [reflexivity|right; right; right; reflexivity].
 Qed.
